@@ -75,6 +75,7 @@ Proof.
   - unfold loop_after_body, ev, ex, ro; mono H.
   - unfold loop_after_body, ev, ex, ro; mono H.
   - destruct entries as [|[key val] more]; unfold loop_after_body, ev, ex, ro; mono H.
+  - destruct ks as [|k ks]; [unfold ro; mono H|]. destruct entries as [|[key val] more]; unfold ex, ro; mono H.
   - unfold loop_after_body, ev, ex, ro; mono H.
   - destruct nvs as [|[n v] rest]; unfold ro; mono H.
   - destruct entries as [|[k v] more]; [unfold ro; mono H|]. destruct keys as [|key krest]; unfold ro; mono H.
